@@ -78,6 +78,14 @@ Section Msg.
   Definition bad_cc (pa : path) (ccz : Z) : M cmdres :=
     fail (EValue (pchild pa "commandCode") (pname (p_cc T)) ccz VSCommandCodes).
 
+  (** a response whose command is unknown - its code is not a TPM_CC, or was never decoded (a stream in warn mode
+      whose command was abandoned before the code): the layout of field [n] is unknowable, ValueConstraintViolatedError *)
+  Definition rsp_no_cc {A} (pa : path) (n : string) (cc : option Z) : M A :=
+    match cc with
+    | Some c => fail (EValue (pchild pa n) (pname (p_cc T)) c VSCommandCodes)
+    | None => fail (EValue (pchild pa n) (pname (p_cc T)) 0 VSNoCommand)
+    end.
+
   (** the parameter area of a command and the end of the command *)
   Definition cmd_params_step (pa : path) (cid aid : nat) (ccz : Z)
              (v : list (string * option value)) (area : option value) (enc : bool) : M cmdres :=
@@ -145,7 +153,7 @@ Section Msg.
   Definition rsp_rest (pa : path) (rid pid : nat) (cc : option Z) (enc sessions : bool)
              (v : list (string * option value)) (have_psize : bool) : M value :=
     match match cc with Some c => lookupZ c (rsp_params T) | None => None end with
-    | None => internal_ IRspNoCommandCode
+    | None => rsp_no_cc pa "parameters" cc
     | Some pty =>
         try_field [rid; pid] (dec_ty T abort pty (pchild pa "parameters") None enc) (ret (rsp_obj v)) (fun pv =>
         let v' := ("parameters", pv) :: v in
@@ -191,7 +199,7 @@ Section Msg.
           append_lst pid ;;;
           rsp_rest pa rid pid cc enc sessions (("parameterSize", psv) :: v4) true)
         else rsp_rest pa rid pid cc enc sessions v4 false)
-    | None => internal_ IRspNoCommandCode
+    | None => rsp_no_cc pa "handles" cc
     end))).
 
   (** [process_command_response_stream]: [while True]; the pump ends it at a message root *)
